@@ -15,8 +15,7 @@ THEOREMS = ["Ymq.C07." + t for t in (
     "mgRedc_spec mgMul_spec new_spec mulmod_spec mintMulmod_spec mulmod_overflow_carry_zero "
     "add_spec sub_spec add_spec_partial sub_spec_partial add_512bit_counterexample "
     "redc_spec redc_spec_partial from_int_spec to_int_spec from_to_int redc_large_spec inv_spec gcd_spec "
-    "M128_mul_spec M128_add_sub_spec M128_eq_ZmodN M128_inv2adic_spec_partial "
-    "M128_inv2adic_overflow_witness").split()]
+    "M128_mul_spec M128_add_sub_spec M128_eq_ZmodN M128_inv2adic_spec M128_r_r2_spec").split()]
 HYPOTHESES = ["inv_mod_spec (theorem inv_spec): arith_gcd::inv_mod(a, n) returns the inverse i < n of a modulo n, "
               "or fails only when gcd(a, n) != 1 (this is property C09; ZmodN::inv/gcd are thin wrappers around arith_gcd)"]
 PROFILES = ["release", "chk"]
@@ -39,8 +38,7 @@ UNMODELLED = [
     "arith_gcd::inv_mod / big_gcd (property C09) are a parameter of the model of ZmodN::inv (theorem hypothesis inv_mod_spec) and Nat.gcd "
     "for ZmodN::gcd; the driver instantiates them with a reference extended Euclid, so zn_inv/zn_gcd lines check the wrapper only",
     "memory safety of get_unchecked: the model indexes the same words but does not model undefined behaviour",
-    "M128::inv_2adic: only soundness of a returned value is proved (totality is false in the checked profile, see the witness theorem); "
-    "M128::r_r2 is compared (K) and oracle-checked (O) but has no theorem",
+    "mul256 is a nested fn of M128::mul and is exercised only through it",
 ]
 
 
@@ -241,6 +239,12 @@ def m128_cases(rng, count):
         x, y = residue(rng, n), residue(rng, n)
         c = rng.randrange(8)
         if c == 0:
+            if rng.randrange(4) == 0:
+                # n whose inverse modulo 2^128 is a small odd number (the start value of the loop then overshoots)
+                inv = rng.randrange(3, 1 << rng.choice([3, 8, 30, 62]), 2)
+                j = (-pow(1 << 128, -1, inv)) % inv
+                if j and ((j << 128) + 1) // inv >= W:
+                    n = ((j << 128) + 1) // inv
             out.append(Case(f"m128_inv_2adic {n}"))
         elif c == 1:
             out.append(Case(f"m128_r_r2 {n} {ninv}"))
@@ -340,7 +344,7 @@ def mg64_cases(rng, N):
 
 
 def cases(tier, rng, extended=False):
-    scale = 1 if tier == "quick" else 10
+    scale = 1 if tier == "quick" else 30
     if extended:
         scale *= 10
     yield from mg64_cases(rng, 4000 * scale)
@@ -503,7 +507,7 @@ def nontrivial(case, ans):
 
 CLAIM = ("Lean theorems, for all inputs, about word-exact models of the 64-bit routines (mg_redc, mg_mul), of the multiword ring ZmodN "
          "(new, mul = CIOS multiply-reduce + conditional subtraction, add, sub, redc, from_int, to_int, redc_large, inv relative to C09) and of the "
-         "128-bit type M128 (mul, add, sub, and its equality with ZmodN on 1- and 2-word moduli): on the documented domain no panic site is "
+         "128-bit type M128 (inv_2adic, r_r2, mul, add, sub, and its equality with ZmodN on 1- and 2-word moduli): on the documented domain no panic site is "
          "reached, results are fully reduced and equal x*y/R, x+-y, x/R, x*R, x (round trip) modulo n; the res[SIZE]=1 branch of _mint_mulmod is "
          "proved unreachable. The models are tied to the code by differential runs in the release and checked profiles; a Python big-integer "
          "oracle checks every in-domain implementation answer.")
@@ -512,5 +516,5 @@ LEVEL_NOTE = ("Trusted: Lean kernel (+propext, Classical.choice, Quot.sound); th
               "shortcut): all ZmodN theorems are about the limb-by-limb model. add/sub/redc/redc_large are proved for n < 2^511 (covers the documented "
               "500-bit range); for 512-bit moduli add/sub are wrong/panic (theorem add_512bit_counterexample) and that band is only compared, not "
               "oracle-checked here (it belongs to C03). bnum operators are modelled as Nat arithmetic; arith_gcd (inv_mod, big_gcd) enters as a named "
-              "hypothesis (C09). M128::inv_2adic: soundness only, totality fails in the checked profile (witness theorem); M128::r_r2 is K/O-checked only.")
+              "hypothesis (C09). M128::inv_2adic is proved total and correct for the code after the /repo fix a0db7d0 (before it, the checked profile overflowed for n = (2^129+1)/3).")
 TECHNIQUE = "Lean 4 proof about a hand model + differential correspondence check + spec oracle"
